@@ -107,6 +107,7 @@ func rulesC03(c *Ctx) {
 	R.Rule("R8", "mint signs only behind overflow-checked OUT <= stored quote amount (at most the quoted amount)", 3)
 	R.Rule("R9", "the quote state survives storage: String() and StringToState of the mint-quote state are inverse tables (the state is persisted as text)", 1)
 	R.Rule("R10", "the PENDING marker precedes every other storage / Lightning call of the mint op", 2)
+	R.Rule("R13", "the storage readers of a mint quote report what is stored: every column scanned into a local (the state kept as text, the NUT-20 key) is carried into the returned quote", 4)
 	R.Rule("R12", "the checked sum of the outputs is exact: AmountChecked tests the overflow flag of every single addition, OverflowAddUint64 answers 'ok' only when the sum did not wrap (shared with C02.R12)", 7)
 	R.Rule("R11", "the quote-state op asks the backend whenever the stored state is UNPAID (a payment that arrived while nobody was watching is noticed at the next poll)", 1)
 	c.ruleMintPollCompleteness("R11")
@@ -231,6 +232,7 @@ func rulesC03(c *Ctx) {
 
 	c.ruleMintAmount("R8", mint)
 	c.ruleCheckedArithmetic("R12")
+	c.scannedLocalsReachResult("R13", "GetMintQuote", "GetMintQuoteByPaymentHash")
 	c.c03MessageAgreement()
 	c.c03WriterCensus(mint, quoteOp, st)
 	c.c03Pairs(mint, quoteOp)
